@@ -633,9 +633,9 @@ func (p *Prog) isDBPrimitive(ci *capInfo, s Site) (op string, key ssa.Value) {
 func (p *Prog) effectsFrom(r *resolver, ci *capInfo, root *ssa.Function, cut func(caller, callee *ssa.Function) bool) []Eff {
 	var out []Eff
 	type vkey struct {
-		fn   *ssa.Function
-		s1   ssa.CallInstruction
-		s2   ssa.CallInstruction
+		fn *ssa.Function
+		s1 ssa.CallInstruction
+		s2 ssa.CallInstruction
 	}
 	visited := map[vkey]bool{}
 	cg := p.CallGraph()
@@ -699,7 +699,6 @@ func (p *Prog) effectsFrom(r *resolver, ci *capInfo, root *ssa.Function, cut fun
 	walk(root, &frame{callee: root}, []string{qname(root)})
 	return out
 }
-
 
 // concreteTypeOf traces an interface value back through parameters (using the call stack) to a MakeInterface.
 func concreteTypeOf(v ssa.Value, fr *frame, depth int) types.Type {
@@ -775,7 +774,6 @@ func refineByFrame(s Site, callees []*ssa.Function, fr *frame) []*ssa.Function {
 	}
 	return out
 }
-
 
 // Attribution of a primitive effect to the function in which its bucket becomes determined.
 type Attr struct {
